@@ -88,3 +88,49 @@ def root_name(t):
             names = {root_name(x) for x in t[1]}
             return names.pop() if len(names) == 1 else None
         return None
+
+
+def accumulations(fnode, T, name):
+    """Every way the set / list variable ``name`` grows in ``fnode``:
+    [(node, element term)] for single elements and [(node, ('*', term))] for
+    a whole collection that is not a display.  Recognised spellings:
+    x.add(e) / x.append(e); x.update(D) / x.extend(D); x |= D / x += D;
+    x = x | D / x = x + D / x = x.union(D, ...).  D may be a set / list /
+    tuple display (its elements are reported one by one)."""
+    out = []
+
+    def spread(node, d):
+        t = T.of(d)
+        if t[0] in ("set", "list", "tuple"):
+            for e in t[1]:
+                out.append((node, e))
+        else:
+            out.append((node, ("*", t)))
+
+    def is_x(e):
+        return isinstance(e, ast.Name) and e.id == name
+
+    for n in walk_own(fnode):
+        if isinstance(n, ast.Call) and isinstance(n.func, ast.Attribute) \
+                and is_x(n.func.value):
+            if n.func.attr in ("add", "append") and len(n.args) == 1:
+                out.append((n, T.of(n.args[0])))
+            elif n.func.attr in ("update", "extend"):
+                for a in n.args:
+                    spread(n, a)
+        elif isinstance(n, ast.AugAssign) and is_x(n.target) and isinstance(
+                n.op, (ast.BitOr, ast.Add)):
+            spread(n, n.value)
+        elif isinstance(n, ast.Assign) and len(n.targets) == 1 and is_x(
+                n.targets[0]):
+            v = n.value
+            if isinstance(v, ast.BinOp) and isinstance(
+                    v.op, (ast.BitOr, ast.Add)) and (
+                        is_x(v.left) or is_x(v.right)):
+                spread(n, v.right if is_x(v.left) else v.left)
+            elif isinstance(v, ast.Call) and isinstance(
+                    v.func, ast.Attribute) and v.func.attr == "union" and \
+                    is_x(v.func.value):
+                for a in v.args:
+                    spread(n, a)
+    return out
